@@ -25,6 +25,7 @@ import lib
 from lib import gz, gnat, gbool
 
 REQ = "From CfdmV Require Import Common.Base C09.Model C09.Run.\nOpen Scope Z_scope."
+MODEL_FILES = ["Model", "Spec", "Run"]
 VBASE = 5          # token base of the vertical coordinate that owns formula terms
 
 
@@ -142,6 +143,9 @@ def fresh_field(rng, fid):
         sk["cm"] = [[rng.randrange(n), rng.choice(["mean", "maximum"])]]
     if rng.random() < 0.25:
         sk["dimnc"] = [rng.choice([None, 0, 1, 2]) for _ in range(n)]
+    if rng.random() < 0.2:
+        # a property with a forced global-attribute value (honoured only if all fields agree)
+        sk["gattr"] = rng.choice([1, 1, 2])
     return normalise(rng, sk)
 
 
@@ -243,7 +247,7 @@ def mutate(rng, parent, fid, allow_ft_conflict):
     kinds = ["same"]
     for _ in range(ops):
         op = rng.choice(["tok", "tok", "bnd", "drop", "transpose", "gm-datum", "gm-drop", "free-dim", "dup-aux",
-                         "add-aux", "scalar", "anc-as-aux", "ft-datum"] +
+                         "add-aux", "scalar", "anc-as-aux", "ft-datum", "gattr"] +
                         (["drop-ft", "term-change"] if allow_ft_conflict else []))
         kinds.append(op)
         pool = [(k, j) for k in ("aux", "meas", "fanc") for j in range(len(sk[k]))]
@@ -312,6 +316,10 @@ def mutate(rng, parent, fid, allow_ft_conflict):
             sk["aux"].append({"ax": list(a["ax"]), "t": a["t"], "b": a["b"]})
         elif op == "ft-datum" and sk["ft"] is not None and len(sk["gm"]) == 2:
             sk["ft"]["d"] = rng.choice([None, sk["gm"][0]["d"], sk["gm"][1]["d"], 9])
+        elif op == "gattr":
+            sk["gattr"] = rng.choice([None, 1, 2]) if sk.get("gattr") is not None else rng.choice([1, 2])
+            if sk["gattr"] is None:
+                del sk["gattr"]
         elif op == "drop-ft" and sk["ft"] is not None:
             sk["ft"] = None
             sk["anc"] = []
@@ -441,6 +449,63 @@ def corpus():
     return out
 
 
+EXAMPLES = [0, 1, 2, 3, 4, 5, 6, 7, 11]      # cfdm.example_field(n) that can be written (8-10 are UGRID)
+
+
+def example_cases(rng, thorough):
+    """cfdm's own example fields, every unordered pair in both orders (cell methods, scalar coordinates,
+    formula terms, grid mappings, DSG and geometry fields mixed), plus sampled triples.  Oracle only."""
+    out = []
+    for a, b in itertools.combinations(EXAMPLES, 2):
+        out.append({"fields": [{"id": 9000 + a, "ex": a}, {"id": 9000 + b, "ex": b}],
+                    "orders": [[0, 1], [1, 0]], "fam": "example-pairs"})
+    triples = list(itertools.combinations(EXAMPLES, 3))
+    for t in (triples if thorough else rng.sample(triples, 10)):
+        orders = [list(p) for p in itertools.permutations(range(3))]
+        out.append({"fields": [{"id": 9000 + n, "ex": n} for n in t],
+                    "orders": orders if thorough else rng.sample(orders, 3), "fam": "example-triples"})
+    return out
+
+
+def bounds_family(rng, n):
+    """Two fields with an equal coordinate-with-bounds (so that the second registration of the bounds is a
+    re-registration of an existing variable), then a field whose *different* coordinate sits on another
+    dimension of the same size and has equal bounds: its bounds must not be taken from the first variable.
+    All orderings; also with global attributes forced by some of the fields only."""
+    out = []
+    for j in range(n):
+        size = rng.choice([2, 3])
+        b = rng.choice([2, 4, 6])
+        t = tok(rng.choice([20, 21, 22]), rng.choice([0, 1, 2]))
+        t2 = tok(t // 4 + 1, 0) if rng.random() < 0.5 else tok(t // 4, (t % 4 + 1) % 3)
+        dx = {"t": tok(6, rng.choice([0, 1])), "b": rand_bounds(rng, 0.3)}
+        dy = {"t": tok(7, rng.choice([0, 1])), "b": rand_bounds(rng, 0.3)}
+        kind = rng.choice(["aux", "aux", "dim", "aux2"])
+        fid = 50000 + 10 * j
+        f1 = F(fid, [size], dim=[dict(dx)], aux=[{"ax": [0], "t": t, "b": b}])
+        f2 = F(fid + 1, [size], dim=[dict(dx)], aux=[{"ax": [0], "t": t, "b": b}])
+        if rng.random() < 0.4:
+            f2["meas"] = [{"ax": [0], "t": tok(25, 0)}]
+        if kind == "aux":
+            f3 = F(fid + 2, [size], dim=[dict(dy)], aux=[{"ax": [0], "t": t2, "b": b}])
+        elif kind == "dim":
+            # the different coordinate is itself the dimension coordinate of the other dimension
+            f3 = F(fid + 2, [size], dim=[{"t": t2, "b": b}])
+        else:
+            # two same-size axes in one field: the equal one on the first, the different one on the second
+            f3 = F(fid + 2, [size, size], dim=[dict(dx), dict(dy)],
+                   aux=[{"ax": [0], "t": t, "b": b}, {"ax": [1], "t": t2, "b": b}])
+        fields = [f1, f2, f3]
+        for f in fields:
+            if rng.random() < 0.3:
+                f["gattr"] = rng.choice([1, 2])
+        for f in fields:
+            normalise(rng, f)
+        out.append({"fields": fields, "orders": [list(p) for p in itertools.permutations(range(3))],
+                    "fam": "equal-bounds-other-dimension"})
+    return out
+
+
 # ---- oracle helpers -----------------------------------------------------------
 def descriptors(sk, fview):
     """netCDF variable name -> list of (kind, token, bounds token, shape) held for this field"""
@@ -498,6 +563,8 @@ def number(lists):
 
 def nontrivial(case):
     """at least two fields that have some construct descriptor in common, or a coordinate reference"""
+    if any(sk.get("ex") is not None for sk in case["fields"]):
+        return True      # the example fields share latitude / longitude / time variables
     ds = []
     for sk in case["fields"]:
         s = {("dim", it["t"], it["b"]) for it in sk["dim"] if it is not None}
@@ -513,7 +580,7 @@ def run(chk, model_ok):
     rng = chk.rng
     thorough = chk.tier == "thorough"
     ncases = 3600 if thorough else 170
-    cases = corpus()
+    cases = corpus() + example_cases(rng, thorough) + bounds_family(rng, 400 if thorough else 24)
     fid = 100
     for n in range(ncases):
         allow = rng.random() < 0.06
@@ -549,12 +616,18 @@ def run(chk, model_ok):
         sks = c["fields"]
         stats["families"][c["fam"]] = stats["families"].get(c["fam"], 0) + 1
         stats["sizes"][len(sks)] = stats["sizes"].get(len(sks), 0) + 1
+        isex = any(sk.get("ex") is not None for sk in sks)
         for sk in sks:
+            if sk.get("ex") is not None:
+                stats["features"]["example_field"] = stats["features"].get("example_field", 0) + 1
+                continue
             for k in ("aux", "anc", "meas", "fanc", "scalar", "gm", "cm"):
                 if sk.get(k):
                     stats["features"][k] = stats["features"].get(k, 0) + 1
             if sk.get("ft"):
                 stats["features"]["ft"] = stats["features"].get("ft", 0) + 1
+            if sk.get("gattr") is not None:
+                stats["features"]["forced_global_attribute"] = stats["features"].get("forced_global_attribute", 0) + 1
             if any(it is not None and it.get("b") is not None for it in sk["dim"] + sk["aux"]):
                 stats["features"]["bounds"] = stats["features"].get("bounds", 0) + 1
         if "harness_err" in r or "build_err" in r:
@@ -615,7 +688,7 @@ def run(chk, model_ok):
             if fails:
                 pending.append((ci, o, fails))
             # correspondence literal
-            if model_ok and not hasdom and "file" in o and "per" in o and all("err" not in fv for fv in o["file"]):
+            if model_ok and not hasdom and not isex and "file" in o and "per" in o and all("err" not in fv for fv in o["file"]):
                 names = [flat_names(sks[k], fv) for k, fv in zip(order, o["file"])]
                 views = [p["view"] for p in o["per"]]
                 if any(n is None for n in names) or any(v is None for v in views):
@@ -632,15 +705,20 @@ def run(chk, model_ok):
     explained = set()
     sig_of = {}
     if pending:
-        qs = sorted({ci for ci, _, _ in pending})
+        qs = sorted({ci for ci, _, _ in pending
+                     if all(sk.get("ex") is None for sk in cases[ci]["fields"])})
         flags = {}
         if model_ok:
-            ql = [f"[{'; '.join(g_field(sk) for sk in cases[ci]['fields'] if not sk.get('dom'))}]" for ci in qs]
+            # (a domain is written through the same code: it takes part in the conflict like a field)
+            ql = [f"[{'; '.join(g_field(sk) for sk in cases[ci]['fields'])}]" for ci in qs]
             bad = set(lib.coq_bad_indices("C09", REQ, "fun fs => negb (existsb (ft_conflict true) (perms_ fs))", ql,
                                           chunk=100, defs=PERMS_DEF))
             flags = {ci: (i in bad) for i, ci in enumerate(qs)}
         for ci, o, fails in pending:
-            conflict = flags.get(ci, may_conflict_ft(cases[ci]["fields"]))
+            if any(sk.get("ex") is not None for sk in cases[ci]["fields"]):
+                conflict = False
+            else:
+                conflict = flags.get(ci, may_conflict_ft(cases[ci]["fields"]))
             for sig, what in fails:
                 if conflict and sig in ("not-exactly-one-equal", "differs-from-single-file", "shared-unequal",
                                         "extra-or-missing-constructs", "fingerprint-differs"):
@@ -652,6 +730,7 @@ def run(chk, model_ok):
             explained.add((ci, tuple(o["order"])))
 
     ncorr = 0
+    n_guard = 0
     if model_ok:
         idx = [i for i, l in enumerate(lits) if l is not None]
         bad = set(lib.coq_bad_indices("C09", REQ, "check_case", [lits[i] for i in idx], chunk=150))
@@ -669,6 +748,22 @@ def run(chk, model_ok):
                              {"correspondence": "C09.Run.check_case",
                               "input": {"fields": [clean(f) for f in cases[ci]["fields"]], "order": o["order"]},
                               "observed": {"file": o.get("file"), "per": o.get("per")}})
+        # the composition theorem on the same cases: how many are under its hypotheses, and (a direct
+        # reading of the theorem against the implementation) the read-back equals [map expected fs]
+        sel = [lits[i] for i in idx]
+        not_guard = set(lib.coq_bad_indices("C09", REQ, "guard_case", sel, chunk=150))
+        bad_spec = set(lib.coq_bad_indices("C09", REQ, "spec_case", sel, chunk=150))
+        n_guard = len(idx) - len(not_guard)
+        for j, i in enumerate(idx):
+            if j in bad_spec and j not in bad:
+                ci, o, _ = lit_src[i]
+                if (ci, tuple(o["order"])) in explained:
+                    continue
+                chk.fail("correspondence", "spec-vs-impl",
+                         "under the hypotheses of C09_composition the read-back view differs from Spec.expected",
+                         {"correspondence": "C09.Run.spec_case",
+                          "input": {"fields": [clean(f) for f in cases[ci]["fields"]], "order": o["order"]},
+                          "observed": {"per": o.get("per")}})
         for i, l in enumerate(lits):
             if l is None:
                 ci, o, _ = lit_src[i]
@@ -690,14 +785,17 @@ def run(chk, model_ok):
         "evaluations": stats["orderings"],
         "distinct_nontrivial": len(distinct),
         "rule": "a case is a multiset of 2-5 field skeletons from a common pool (fresh, or an earlier field mutated by 0-2 "
-                "operators: token variant = one value / one property / units differ, bounds added / removed / one value, "
+                "operators: token variant = one value / one property / units differ, bounds added / removed / one value, forced global attribute set / changed / removed, "
                 "construct dropped / added / transposed / duplicated on another equal-size axis, datum or grid mapping "
                 "changed, dimension coordinate removed, domain ancillary reused as auxiliary coordinate, netCDF names set); "
-                "every ordering for <= 3 fields, 5 orderings beyond; an evaluation is one ordering written and read back; "
+                "every ordering for <= 3 fields, 5 orderings beyond; plus every pair of cfdm's writable example fields in both "
+                "orders and sampled triples (oracle only), and triples with equal bounds on different same-size dimensions; "
+                "an evaluation is one ordering written and read back; "
                 "non-trivial = at least two of its fields have an equal construct descriptor (so something can be shared); "
                 "distinct = distinct canonical skeleton lists (ids removed)",
         "samples": [clean(f) for f in done[len(done) // 2][0]["fields"]][:2] if done else [],
         "traces_validated_against_impl": ncorr,
+        "orderings_under_composition_theorem_hypotheses": n_guard,
         "disagreements_checked": ncorr,
         "cases": len(done),
         "fields_written": stats["fields_written"],
